@@ -3,6 +3,7 @@
  * placeholder, joined by ','. */
 #include "config.h"
 #include <libast.h>
+extern unsigned int vt_base_level;   /* engine/tracker_shim.c */
 #include <sanitizer/asan_interface.h>
 #include <sanitizer/allocator_interface.h>
 
@@ -49,7 +50,7 @@ static int put(char *dst, size_t cap, size_t *off, spif_obj_t o)
 int c02_init(void)
 {
     int c;
-    libast_debug_level = 0;
+    libast_debug_level = vt_base_level;
     for (c = 0; c < NCLS; c++) { L[c][0] = mk(c); L[c][1] = NULL; if (SPIF_LIST_ISNULL(L[c][0])) return 0; }
     return 1;
 }
@@ -127,9 +128,9 @@ const char *c02_seq_to_array(int cls, int which)
     spif_obj_t *a = SPIF_LIST_TO_ARRAY(L[cls][which]);
     outbuf[0] = 0;
     if (n > 0 && !a) return "!to_array returned NULL";
-    if (a && __sanitizer_get_allocated_size(a) < sizeof(spif_obj_t) * (size_t) n) { free(a); return "!to_array block too small"; }
+    if (a && __sanitizer_get_allocated_size(a) < sizeof(spif_obj_t) * (size_t) n) { FREE(a); return "!to_array block too small"; }
     for (i = 0; i < n; i++) if (!put(outbuf, sizeof(outbuf), &off, a[i])) break;
-    free(a);
+    FREE(a);
     return outbuf;
 }
 /* fresh iterator: up to `steps` next() calls (steps < 0: until has_next is false, bounded by limit);
